@@ -4,6 +4,7 @@ import IsoVerif.Model.PolyA
 import IsoVerif.Model.PolyAFinder
 import IsoVerif.Model.TailSpec
 import IsoVerif.Model.FinderChar
+import IsoVerif.Model.FinderPad
 
 namespace IsoVerif.Driver.C16
 open Lean IsoVerif.Driver IsoVerif.Gen IsoVerif.Model IsoVerif.Model.C16
@@ -77,7 +78,7 @@ def ops : List (String × Handler) := [
       | none => pure (jErr "error")
       | some c =>
         let seq ← jStr (← arg j "seq")
-        pure (ofOptInt (findPolyaTailSpec (← jNat (← arg j "w")) (← jNat (← arg j "num")) (← jNat (← arg j "den"))
+        pure (ofOptInt (findPolyaTailSpecFix (← jNat (← arg j "w")) (← jNat (← arg j "num")) (← jNat (← arg j "den"))
           (← jInt (← arg j "s")) c seq.toList (← jInt (← arg j "from")) (← jInt (← arg j "to"))
           (← jBool (← arg j "chk"))))),
   ("find_polyt_head_spec", fun j => do
@@ -85,24 +86,29 @@ def ops : List (String × Handler) := [
       | none => pure (jErr "error")
       | some c =>
         let seq ← jStr (← arg j "seq")
-        pure (ofOptInt (findPolytHeadSpec (← jNat (← arg j "w")) (← jNat (← arg j "num")) (← jNat (← arg j "den"))
+        pure (ofOptInt (findPolytHeadSpecFix (← jNat (← arg j "w")) (← jNat (← arg j "num")) (← jNat (← arg j "den"))
           (← jInt (← arg j "s")) c seq.toList (← jInt (← arg j "from")) (← jInt (← arg j "to"))
           (← jBool (← arg j "chk"))))),
+  -- the tree before `fix: padding inside the walked tail` (Props/C16Pad.lean: `pad_in_tail_witness`)
+  ("move_ref_coord_orig", fun j => do
+      match ← jCigar (← arg j "cigar") with
+      | none => pure (jErr "error")
+      | some c => pure (ofOptInt (moveRefCoordOrig c (← jInt (← arg j "shift"))))),
   ("move_ref_coord", fun j => do
       match ← jCigar (← arg j "cigar") with
       | none => pure (jErr "error")
-      | some c => pure (ofOptInt (moveRefCoord c (← jInt (← arg j "shift"))))),
+      | some c => pure (ofOptInt (moveRefCoordFix c (← jInt (← arg j "shift"))))),
   -- the base-by-base specification of the walk (Model/TailSpec.lean), compared with the real code as well
   ("move_ref_coord_spec", fun j => do
       match ← jCigar (← arg j "cigar") with
       | none => pure (jErr "error")
-      | some c => pure (ofOptInt (moveRefCoordSpec c (← jInt (← arg j "shift"))))),
+      | some c => pure (ofOptInt (moveRefCoordSpecFix c (← jInt (← arg j "shift"))))),
   ("find_polya_tail", fun j => do
       match ← jCigar (← arg j "cigar") with
       | none => pure (jErr "error")
       | some c =>
         let seq ← jStr (← arg j "seq")
-        pure (ofOptInt (findPolyaTail (← jNat (← arg j "w")) (← jNat (← arg j "num")) (← jNat (← arg j "den"))
+        pure (ofOptInt (findPolyaTailFix (← jNat (← arg j "w")) (← jNat (← arg j "num")) (← jNat (← arg j "den"))
           (← jInt (← arg j "s")) c seq.toList (← jInt (← arg j "from")) (← jInt (← arg j "to"))
           (← jBool (← arg j "chk"))))),
   ("find_polyt_head", fun j => do
@@ -110,7 +116,7 @@ def ops : List (String × Handler) := [
       | none => pure (jErr "error")
       | some c =>
         let seq ← jStr (← arg j "seq")
-        pure (ofOptInt (findPolytHead (← jNat (← arg j "w")) (← jNat (← arg j "num")) (← jNat (← arg j "den"))
+        pure (ofOptInt (findPolytHeadFix (← jNat (← arg j "w")) (← jNat (← arg j "num")) (← jNat (← arg j "den"))
           (← jInt (← arg j "s")) c seq.toList (← jInt (← arg j "from")) (← jInt (← arg j "to"))
           (← jBool (← arg j "chk"))))),
   -- the whole chain for one record: CIGAR walk, modelled finder, trimming
@@ -123,7 +129,7 @@ def ops : List (String × Handler) := [
         let st := getReadBlocks s c
         if st.refBlocks.isEmpty then pure (Json.mkObj [("no_exons", ofBool true)])
         else
-          match detectPolya polya_window polya_fraction_num polya_fraction_den s c seq.toList with
+          match detectPolyaFix polya_window polya_fraction_num polya_fraction_den s c seq.toList with
           | none => pure (jErr "error")
           | some i =>
             pure (Json.mkObj [("found", ofInfo i),
@@ -133,7 +139,7 @@ def ops : List (String × Handler) := [
       | none => pure (jErr "error")
       | some c =>
         let seq ← jStr (← arg j "seq")
-        match detectPolya (← jNat (← arg j "w")) (← jNat (← arg j "num")) (← jNat (← arg j "den"))
+        match detectPolyaFix (← jNat (← arg j "w")) (← jNat (← arg j "num")) (← jNat (← arg j "den"))
             (← jInt (← arg j "s")) c seq.toList with
         | none => pure (jErr "error")
         | some i => pure (ofInfo i)),
@@ -143,7 +149,7 @@ def ops : List (String × Handler) := [
       | none => pure (jErr "error")
       | some c =>
         let seq ← jStr (← arg j "seq")
-        match detectPolya polya_window polya_fraction_num polya_fraction_den (← jInt (← arg j "s")) c seq.toList with
+        match detectPolyaFix polya_window polya_fraction_num polya_fraction_den (← jInt (← arg j "s")) c seq.toList with
         | none => pure (jErr "error")
         | some i => pure (ofInfo i)),
   ("count_polya_exons", fun j => do
